@@ -80,6 +80,9 @@ pub enum Variant {
     HugePair,
     /// the instance comes from Default::default(); the bound is computed from the parameters it reports
     DefaultInstance,
+    /// indicators with a scalar path: warm-up and every other segment arrive as bars, the rest as scalars
+    /// (both input paths used on one instance)
+    MixedPaths,
 }
 
 /// (b) long runs: serialized size at checkpoints, live heap after warm-up vs after every segment
@@ -91,8 +94,9 @@ fn long_job(cfg: &Cfg, regimes: &[Regime], seglen: usize, seed: u64, variant: Va
     let r = std::panic::catch_unwind(std::panic::AssertUnwindSafe(|| {
         let mut g = Gen::new(10.0, seed);
         let mut s = if variant == Variant::DefaultInstance { crate::subjects::make_default(cfg.kind) } else { make(cfg) };
+        const VOLS: [f64; 4] = [1.0, 3.0, 0.0, 2.0];
         for i in 0..warm {
-            let op = gen_op(cfg.kind, &mut g, Regime::Walk, i);
+            let op = if variant == Variant::MixedPaths { Op::B(g.bar(Regime::Walk, i, &VOLS)) } else { gen_op(cfg.kind, &mut g, Regime::Walk, i) };
             s.apply(&op);
         }
         match variant {
@@ -120,9 +124,9 @@ fn long_job(cfg: &Cfg, regimes: &[Regime], seglen: usize, seed: u64, variant: Va
         let mut worst_growth: isize = 0;
         let mut worst_size = size0;
         let mut t = warm;
-        for r in regimes {
+        for (si, r) in regimes.iter().enumerate() {
             for i in 0..seglen {
-                let op = gen_op(cfg.kind, &mut g, *r, i);
+                let op = if variant == Variant::MixedPaths && si % 2 == 1 { Op::B(g.bar(*r, i, &VOLS)) } else { gen_op(cfg.kind, &mut g, *r, i) };
                 s.apply(&op);
                 t += 1;
                 if let Variant::ResetEvery(k) = variant {
@@ -220,6 +224,9 @@ pub fn run(ctx: &Ctx) -> CheckResult {
                         for v in [Variant::ResetEvery(10), Variant::ResetEvery(2 * p + 1), Variant::OneNan, Variant::SerdeAfterWarmup, Variant::HugePair] {
                             jobs.push((cfg, pair.clone(), l, v));
                         }
+                        if k.has_scalar() {
+                            jobs.push((cfg, pair.clone(), l, Variant::MixedPaths));
+                        }
                     }
                 }
             }
@@ -282,7 +289,7 @@ pub fn run(ctx: &Ctx) -> CheckResult {
     }
     res.exhaustive = false;
     res.rule = "case = (configuration, stream): (a) bincode length of the real object in every state of every short sequence; (b) long generated streams (every ordered pair of shape segments): serialized length at checkpoints and live heap bytes of the executing thread (counting global allocator) after warm-up vs after every segment; both must stay <= 256 + 64*sum(periods); non-trivial = state beyond the first window / long run".into();
-    res.bounds = format!("(a) all 22 indicators, periods 1..4, all sequences over 3 symbols + reset up to depth min(3n+3, {}); (b) periods {} x all 49 ordered pairs of {{up, down, alternating extremes, flat, LCG walk, stair, zero-mix (0.0 / -0.0 / small signed values)}} x segment length {} (O(n)-per-step subjects shortened and thinned); every 4th pair additionally with reset() every 10 / 2n+1 inputs, with one NaN input after warm-up, with two inputs of magnitude 1e154 (overflowing products), and continued on a bincode-restored copy; Default::default() instances of all 22 indicators against the bound of the parameters they report", if th { 13 } else { 10 }, if th { "1..16, 31..33, 63..65, 127..129, 255..257, 511, 512" } else { "1, 2, 5, 14, 64, 257" }, if th { 500_000 } else { 20_000 });
+    res.bounds = format!("(a) all 22 indicators, periods 1..4, all sequences over 3 symbols + reset up to depth min(3n+3, {}); (b) periods {} x all 49 ordered pairs of {{up, down, alternating extremes, flat, LCG walk, stair, zero-mix (0.0 / -0.0 / small signed values)}} x segment length {} (O(n)-per-step subjects shortened and thinned); every 4th pair additionally with reset() every 10 / 2n+1 inputs, with one NaN input after warm-up, with two inputs of magnitude 1e154 (overflowing products), continued on a bincode-restored copy, and (indicators with a scalar path) with bars and scalars fed to the same instance in turn; Default::default() instances of all 22 indicators against the bound of the parameters they report", if th { 13 } else { 10 }, if th { "1..16, 31..33, 63..65, 127..129, 255..257, 511, 512" } else { "1, 2, 5, 14, 64, 257" }, if th { 500_000 } else { 20_000 });
     res.assumptions = vec!["systematically enumerated family of stream shapes, not all streams".into(), "live heap is measured per thread: memory handed to another thread would not be seen (the crate spawns no threads)".into()];
     res
 }
